@@ -84,7 +84,54 @@ def _bit(ctx, args, kwargs):
     return SInt((int_term(n) / z3.IntVal(1 << ii)) % 2)
 
 
+def _is_digits(ctx, args, kwargs):
+    from .values import SBool, str_term
+    s = args[0]
+    if not is_sym(s):
+        return S.is_digits(s)
+    return SBool(z3.InRe(str_term(s), z3.Star(z3.Range("0", "9"))))
+
+
+def _instantiate_post(ctx, args, kwargs):
+    fn = args[0]
+    if isinstance(fn, SMethod_):
+        fn = fn.func
+    rec = ctx.applied.get(fn)
+    if rec is None:
+        ctx.unsupported("instantiate_post: no contract application of %r on this path" % (fn,))
+    c, ns = rec
+    ns2 = dict(ns)
+    ns2.update(kwargs)
+    for nm, f in c.ensures.items():
+        ctx.assume(ctx.as_goal(ctx.call_spec(f, ns2)))
+    return True
+
+
+def _assume_pre(ctx, args, kwargs):
+    c = ctx.cur_contract
+    ns2 = dict(ctx.entry_ns)
+    ns2.update(kwargs)
+    if c.requires is not None:
+        ctx.assume(ctx.as_goal(ctx.call_spec(c.requires, ns2)))
+    return True
+
+
+def _fromhex(ctx, args, kwargs):
+    from .models import _m_fromhex, FROMHEX
+    from .values import SBytes, str_term
+    s = args[0]
+    if not is_sym(s):
+        return bytes.fromhex(s)
+    return SBytes(term=FROMHEX(str_term(s)))
+
+
+from .values import SMethod as SMethod_
+
 ModelsMixin.FUNCTION_MODELS.update({
+    "pyvc.spec.is_digits": _is_digits,
+    "pyvc.spec.instantiate_post": _instantiate_post,
+    "pyvc.spec.assume_pre": _assume_pre,
+    "pyvc.spec.fromhex": _fromhex,
     "pyvc.spec.raw": _raw,
     "pyvc.spec.slot": _slot,
     "pyvc.spec.be": _be,
